@@ -223,7 +223,7 @@ def run_case(case, tier='quick', only_k=None):
             mode = 'full' if kk in full else 'short'
             d = os.path.join(base, 'B-%d' % kk)
             os.makedirs(d, exist_ok=True)
-            shutil.copyfile(m['file'], os.path.join(d, 'ckpt.hdf5'))
+            shutil.copyfile(m['file'], os.path.join(d, sl.ckpt_name(cfg)))
             try:
                 B = sl.Lab(spec, cfg, use_file=True, workdir=d,
                            resume_initial=True)
